@@ -9,10 +9,12 @@ PROPS=${PROPS:-"C01 C02 C03 C04 C05 C06 C07 C08 C09 C10 C11 C12 C13 C14 C15 C16 
 (cd "$DIR/hqsim" && CARGO_NET_OFFLINE=true CARGO_TARGET_DIR="$DIR/target" cargo build --profile sim --offline >"$DIR/.build.log" 2>&1) || { echo "build failed (see $DIR/.build.log)"; exit 2; }
 OUT=$(mktemp -d /tmp/hqsim-seedtest.XXXXXX)
 cp "$DIR/known_findings.txt" "$OUT/"
+# private copy of the binary: checks of seeded changes rebuild $DIR/target/sim/hqsim in place
+cp "$DIR/target/sim/hqsim" "$OUT/hqsim"
 fail=0
 for s in $SEEDS; do
   for p in $PROPS; do
-    VERIF_SEED=$s "$DIR/target/sim/hqsim" check --property "$p" --tier quick --verif-dir "$OUT" > "$OUT/$p-$s.log" 2>&1
+    VERIF_SEED=$s "$OUT/hqsim" check --property "$p" --tier quick --verif-dir "$OUT" > "$OUT/$p-$s.log" 2>&1
     code=$?
     if [ $code -ne 0 ]; then
       echo "seed $s $p exit=$code: $(grep '^VIOLATION\|HARNESS' "$OUT/$p-$s.log" | head -2 | tr '\n' ' ')"
